@@ -287,6 +287,20 @@ def unit_wrappers(S):
     eps = z3.RealVal("1/100000")
     S.prove("RescaleObservation/inner-box-into-advertised-box", ctx2, sand(*[z3.And(ir.zreal(out2.at((i,))) >= -1 - eps, ir.zreal(out2.at((i,))) <= 1 + eps) for i in range(2)]), hyps=hyp2,
             function=fn + ":RescaleObservation", what="RescaleObservation maps the inner box into the advertised box [-1, 1] (affine, monotone; tolerance 1e-5 for the float32 coefficients)")
+    # wrapper-stack induction step for wrappers that do NOT declare an observation change: they advertise the observation space of the object they wrap (self.env - which may itself be
+    # a wrapper stack; the generic inner object's `unwrapped` is a decoy with other spaces) and pass its observation through unchanged (C13 pass-through obligations), so membership
+    # of the inner observation in the inner space carries over to the stack.  Likewise the action space for wrappers that do not declare an action change.
+    from contracts import C13
+    for name, (mk, build, changes) in C13.WRAPPERS.items():
+        cls = name.split("/")[0]
+        E0 = build(mk())
+        same = lambda a, b: a is b or a == b
+        if cls not in ("TransformObservation", "ClipObservation", "RescaleObservation", "FlattenObservation"):
+            S.fact(f"stack-induction/{name}/observation-space-inherited", same(E0.observation_space, E0.env.observation_space), function=f"lerax.wrapper:{cls}.observation_space",
+                   replay=C13._space_replay(cls, "observation_space"), what="declared observation space = the wrapped object's, so its observations (passed through unchanged) stay members")
+        if cls not in ("TransformAction", "ClipAction", "RescaleAction"):
+            S.fact(f"stack-induction/{name}/action-space-inherited", same(E0.action_space, E0.env.action_space), function=f"lerax.wrapper:{cls}.action_space",
+                   replay=C13._space_replay(cls, "action_space"), what="declared action space = the wrapped object's, so sampled actions are accepted by the wrapped object")
     wf = W.FlattenObservation(inner0)
     S.fact("FlattenObservation/shape", tuple(wf.observation_space.shape) == (inner0.observation_space.flat_size,), function=fn + ":FlattenObservation", what="the flattened observation has flat_size entries, the advertised shape")
 
